@@ -10,7 +10,10 @@ if [ ! -x "$here/build/bin/instrument" ] || [ "$here/tools/instrument/main.go" -
 fi
 args=()
 for r in "$@"; do args+=(-replace "$r"); done
-"$here/build/bin/instrument" -mode sync,globals,pkgvars -out "$out" -gen "$here/build/gen-c18" -rt "$here/overlay/zzverifrt.go.txt" -report "$here/build/gen-c18-sites.json" "${args[@]}"
+gen="$here/build/gen-c18"; report="$here/build/gen-c18-sites.json"
+# a mutant run (tools/mutrun.sh) gets its own generated files: it may run next to the real check
+case "$(basename "$out")" in *-mut-*) gen="$here/build/gen-$(basename "$out" .json)"; report="$gen-sites.json";; esac
+"$here/build/bin/instrument" -mode sync,globals,pkgvars -out "$out" -gen "$gen" -rt "$here/overlay/zzverifrt.go.txt" -report "$report" "${args[@]}"
 # add the reset shim for the lazily initialised name tables; if it no longer fits the
 # package's internals use the do-nothing fallback (the check then reports shim_unavailable)
 addshim() {
